@@ -33,15 +33,19 @@ Oracle (reference cell model computed here from the axes alone)
   between the two states, found by bisection on the quadrature of the model's own density (the boundaries next to the
   origin are +-(distance to the neighbour of the origin)/2 on every grid); outer edges = axis end points.
   (i)   tiling, asserted on the cells the library itself uses (arguments of mass / integrate, _cell_bounds): every state
-        strictly inside its cell; right edge of cell k = left edge of cell k+1 (4 ulp); outer edges = axis end points;
-        inner edges = (mid(-h,0), mid(0,h)) = (-grid.h/2, grid.h/2); each library cell = reference cell (4 ulp; on the probability-step
-        grid, whose own root finder stops at xtol = 1e-10, within 1e-9 + 16 ulp of lambda / density at the boundary); the blocks of compute_intensity_of_jumps are
-        exactly the 3^d - 1 products of {left part, central cell, right part} other than the all-central one.
-  (ii)  rate of a state = integral of the density nu.__call__ of the model the user passed (not the process's copy) over the
-        reference cell (mc.oracle.integrate_density; cells never touch the origin, so no singular end point occurs);
+        strictly inside its cell (the two end states sit on the outer edge of theirs, which is the truncation bound);
+        right edge of cell k = left edge of cell k+1 (4 ulp); outer edges = axis end points; inner edges = (mid(-h,0),
+        mid(0,h)) = (-grid.h/2, grid.h/2); each library cell = reference cell (4 ulp; on the probability-step grid, whose
+        own root finder stops at xtol = 1e-10 on closed forms carrying a few ulp of lambda of absolute error, within
+        1e-9 + 16 ulp of lambda / density at the boundary); the blocks of compute_intensity_of_jumps are exactly the
+        3^d - 1 products of {left part, central cell, right part} other than the all-central one; the buckets of the
+        n-d adapted tree partition the non-origin states.
+  (ii)  rate of a state = integral of the density nu.__call__ of the model the user passed (not the process's copy) over
+        the reference cell (mc.oracle.integrate_density; cells never touch the origin, so no singular end point occurs);
         copula: mc.oracle.ref_rectangle_mass (signed copula volume of the marginal tail integrals with the straddle
         decomposition) on the un-truncated margins, the marginal tail integrals at every cell boundary being themselves
-        compared with the quadrature of the margin's density (rtol 1e-9 + 64 ulp of the largest tail integral on the axis); and the joint-density quadrature of sub-check `density`.
+        compared with the quadrature of the margin's density (rtol 1e-9 + 64 ulp of the largest tail integral on the
+        axis); and the joint-density quadrature of sub-check `density`.
   (iii) every rate >= -slack.
   (iv)  sum of the rates = intensity_of_jumps of every process = compute_intensity_of_jumps = the tree's own intensity =
         quadrature total; every route's rate of a state agrees with every other route's.
@@ -58,7 +62,7 @@ states (C13); what the samplers do with the rates (C02).
 
 Tolerances. Routes that repeat the same closed-form call: rtol 1e-12 + 1e-15 lambda. Closed form against quadrature of the
 density: rtol 1e-9 + 1e-13 lambda + the quadrature's own error estimate (skipped and counted oracle_inconclusive when that
-estimate exceeds 1e-10 relative); on the probability-step grid plus 1.5 x density x (boundary tolerance above) per equal-mass boundary.
+estimate exceeds 1e-10 relative) + 1.5 x density x (boundary tolerance of (i)) for each of the two boundaries.
 Sums: rtol 1e-9. Non-negativity: 64 ulp of lambda (1-d: a rate is a difference of two tail masses <= lambda); copula:
 1e-13 S with S = the largest marginal tail integral at an end point of a non-straddling coordinate (every copula value of
 the signed sum is bounded by it). Copula mass against reference mass: 1e-12 S + 1e-9 relative (as in C12).
@@ -67,6 +71,7 @@ is below 1e-9 relative.
 """
 from __future__ import annotations
 
+import collections
 import contextlib
 import itertools
 import math
@@ -901,7 +906,7 @@ def _copula(sh, case):
         if bp is None or bc is None:
             sh.count("adapted-tree-buckets-not-observable")
         else:
-            covered = collections_counter()
+            covered = collections.Counter()
             for j, (p, coords) in enumerate(zip(bp, bc)):
                 ranges = [range(int(l), int(r) + 1) for (l, r) in coords]
                 members = [idx for idx in itertools.product(*ranges)]
@@ -1018,12 +1023,6 @@ def _copula(sh, case):
             sh.violation("NONDETERMINISM", f"rebuilding {tag} from its case dict gave different axes / intensity / cell masses", None)
     if len(states) <= 8:
         sh.sample({"case": case, "axes": ctx.axes, "intensity": lam, "reference_masses": {str(k): v for k, v in ref.items()}})
-
-
-def collections_counter():
-    import collections
-
-    return collections.Counter()
 
 
 # ----------------------------------------------------------------------------------------------------------------------
